@@ -65,6 +65,10 @@ def git_url_to_bzr_url(location, branch=None, ref=None):
         raise ValueError("only specify one of branch or ref")
     url = urlutils.URL.from_string(location)
     if url.scheme not in KNOWN_GIT_SCHEMES and not url.scheme.startswith("chroot-"):
+        if "://" in location:
+            # A URL with a scheme that git doesn't speak (e.g. file://), not a
+            # rsync-style "host:path" location.
+            return location
         try:
             (username, host, path) = parse_rsync_url(location)
         except ValueError:
